@@ -78,6 +78,9 @@ func gen(r *rand.Rand, idx int, cli bool) *genScript {
 	g.custom = !cli
 	m := newModel(r)
 	m.explicitExec, m.customCmds, m.customCond, m.cli = g.explicit, g.custom, g.custom && r.Intn(2) == 0, cli
+	// what the Condition function of this script's RunT call answers for [flavour]: differs between the
+	// RunT calls of one process (an answer is the function's, per call - not something to remember per name)
+	m.flavour = m.customCond && r.Intn(2) == 0
 	// archive
 	var arch strings.Builder
 	dup := r.Intn(8) == 0
@@ -366,7 +369,7 @@ func main() {
 			groups := map[string][]*genScript{}
 			for i := b; i < b+batch && i < nscripts; i++ {
 				g := gen(rng, i, false)
-				key := fmt.Sprintf("%v%v%v%v", g.continueOn, g.explicit, g.unique, g.final.customCond)
+				key := fmt.Sprintf("%v%v%v%v%v", g.continueOn, g.explicit, g.unique, g.final.customCond, g.final.flavour)
 				groups[key] = append(groups[key], g)
 			}
 			var keys []string
@@ -390,7 +393,13 @@ func main() {
 				p := testscript.Params{Files: files, Cmds: cmds, WorkdirRoot: wroot, Deadline: time.Now().Add(30 * time.Second),
 					ContinueOnError: gs[0].continueOn, RequireExplicitExec: gs[0].explicit, RequireUniqueNames: gs[0].unique}
 				if gs[0].final.customCond {
-					p.Condition = condFn
+					flavour := gs[0].final.flavour
+					p.Condition = func(c string) (bool, error) {
+						if c == "flavour" {
+							return flavour, nil
+						}
+						return condFn(c)
+					}
 				}
 				style := tsh.Style((b/batch + gi) % 2)
 				verbose := (b/batch+gi)%3 == 0
